@@ -44,6 +44,7 @@ def shimmed() -> Mods:
         _G = Mods("goodwe")
         _G.orig_checksum = _G.modbus._modbus_checksum
         _G.orig_crc_table = _G.modbus._CRC_16_TABLE
+        reset_mutable_class_state(_G, modules=ALL_MODULES)     # records the import-time content
     return _G
 
 
@@ -61,10 +62,12 @@ def real() -> Mods:
         import logging
         logging.disable(logging.CRITICAL)
         _R = Mods("goodwe_real")
+        reset_mutable_class_state(_R, modules=ALL_MODULES)
     return _R
 
 
 _CLASS_STATE = {}
+ALL_MODULES = ("protocol", "modbus", "sensor", "inverter", "et", "es", "dt")
 
 
 def reset_mutable_class_state(M, modules=("protocol", "modbus")):
